@@ -66,6 +66,45 @@ def u_update_next(c):
         c.oblige("post/clock-went-backwards-advances-one-period", (not nxt > now) or abs(n2 - (nxt + p)) <= tol)
 
 
+@unit("C39", "PeriodicCallback._update_next.jitter", [(M, "PeriodicCallback._update_next")], z3_ms=8000, cvc5_ms=20000)
+def u_update_next_jitter(c):
+    """with jitter the grid clause does not apply, the others do: the run time scheduled is later than the previous one and not before the current time, and while the clock has
+    not gone backwards it is at most one (jittered) period after it; the jittered period is within jitter/2 of the nominal one.  random.random() is any real in [0, 1)."""
+    import tornado.ioloop as IL
+    import types
+    pc = mk_pc(c, running=True)
+    c.assume(pc.callback_time >= 0.001)
+    j = c.real("jitter")
+    r = c.real("random")
+    c.assume(And(j > 0, j <= 1, r >= 0, r < 1))
+    if not c.symbolic and c.model is None:
+        j, r = c.rng.choice([0.1, 0.5, 1.0]), c.rng.random()
+        c.values.update({"jitter": j, "random": r})
+    pc.jitter = j
+    p = pc.callback_time / 1000.0
+    nxt, now = pc._next_timeout, c.real("now")
+    with c.patched((IL, "random", types.SimpleNamespace(random=lambda: r))):
+        out = c.call(c.fn(M, "PeriodicCallback._update_next"), pc, now)
+    c.only_raises(out, ())
+    if out.raised:
+        return
+    c.cover("update_next/jitter")
+    n2 = pc._next_timeout
+    q = p * (1 + j * (r - 0.5))
+    if c.symbolic:
+        c.oblige("post/strictly-later-than-previous", n2 > nxt)
+        c.oblige("post/not-before-now-at-most-one-jittered-period-ahead", Implies(nxt <= now, And(n2 > now, n2 <= now + q)))
+        c.oblige("post/clock-went-backwards-advances-one-jittered-period", Implies(nxt > now, n2 == nxt + q))
+        c.oblige("post/jittered-period-within-half-the-jitter-of-the-nominal-one", And(q >= p * (1 - j / 2), q < p * (1 + j / 2)))
+    else:
+        # (random pre-states are epoch-scale floats: a few ulps of slack; a solver model replayed here is small rationals: next to none)
+        tol = (1e-6 if c.model is None else 1e-12) * max(1.0, abs(now), abs(nxt), abs(p))
+        c.oblige("post/strictly-later-than-previous", n2 > nxt)
+        c.oblige("post/not-before-now-at-most-one-jittered-period-ahead", (not nxt <= now) or (n2 > now - tol and n2 <= now + q + tol))
+        c.oblige("post/clock-went-backwards-advances-one-jittered-period", (not nxt > now) or abs(n2 - (nxt + q)) <= tol)
+        c.oblige("post/jittered-period-within-half-the-jitter-of-the-nominal-one", q >= p * (1 - j / 2) - tol and q < p * (1 + j / 2) + tol)
+
+
 @unit("C39", "PeriodicCallback._schedule_next+start+stop",
       [(M, "PeriodicCallback._schedule_next"), (M, "PeriodicCallback.start"), (M, "PeriodicCallback.stop"), (M, "PeriodicCallback.is_running")])
 def u_schedule(c):
@@ -85,8 +124,10 @@ def u_schedule(c):
         timers = loop.live_timers()
         c.oblige("post/one-timer-for-_run-iff-running", len(timers) == (1 if was else 0) and len(upd) == (1 if was else 0))
         if was and len(timers) == 1:
-            c.oblige("post/timer-is-_run-at-next_timeout", timers[0].cb.__func__ is IL.PeriodicCallback._run and timers[0].cb.__self__ is pc
-                     and timers[0].deadline is pc._next_timeout and pc._timeout is timers[0])
+            if getattr(timers[0].cb, "__func__", None) is not IL.PeriodicCallback._run:
+                from pyvc import core
+                raise core.Unsupported("the timer's callback is %r: only PeriodicCallback._run is under contract here" % (getattr(timers[0].cb, "__name__", timers[0].cb),))
+            c.oblige("post/timer-is-_run-at-next_timeout", timers[0].cb.__self__ is pc and timers[0].deadline is pc._next_timeout and pc._timeout is timers[0])
     elif op == "start":
         with c.patched((IL.PeriodicCallback, "_update_next", stub_update), (IL.IOLoop, "current", staticmethod(lambda *a, **k: loop))):
             out = c.call(c.fn(M, "PeriodicCallback.start"), pc)
